@@ -20,7 +20,9 @@ var modTypes = []uint16{dns.TypeA, dns.TypeAAAA, dns.TypeHTTPS, dns.TypeTXT, dns
 var (
 	rwV4 = []netip.Addr{netip.MustParseAddr("192.0.2.1"), netip.MustParseAddr("192.0.2.2"), netip.MustParseAddr("203.0.113.9")}
 	rwV6 = []netip.Addr{netip.MustParseAddr("2001:db8::1"), netip.MustParseAddr("2001:db8::2")}
-	hsIP = []netip.Addr{netip.MustParseAddr("0.0.0.0"), netip.MustParseAddr("127.0.0.1"), netip.MustParseAddr("::1"), netip.MustParseAddr("192.0.2.7"), netip.MustParseAddr("::")}
+	// zero-valued rewrite addresses: they coincide with the null-IP answer.
+	rwZero4, rwZero6 = netip.IPv4Unspecified(), netip.IPv6Unspecified()
+	hsIP             = []netip.Addr{netip.MustParseAddr("0.0.0.0"), netip.MustParseAddr("127.0.0.1"), netip.MustParseAddr("::1"), netip.MustParseAddr("192.0.2.7"), netip.MustParseAddr("::")}
 )
 
 // ancestors returns host and its parents with at least two labels.
@@ -68,6 +70,12 @@ func drawRewrite(t *rapid.T, d string) (r Rule) {
 	switch rapid.IntRange(0, 9).Draw(t, "rwKind") {
 	case 0, 1, 2, 3, 4:
 		r.Kind, r.IP = KRwIP, drawAddr(t, "rwIP")
+		if rapid.IntRange(0, 7).Draw(t, "rwZero") == 0 {
+			r.IP = rwZero4
+			if rapid.Bool().Draw(t, "rwZero6") {
+				r.IP = rwZero6
+			}
+		}
 	case 5, 6, 7:
 		r.Kind, r.Target = KRwCNAME, rapid.SampledFrom(Targets).Draw(t, "rwTarget")
 	default:
